@@ -402,6 +402,7 @@ func Generate(repoDir, outDir, shimDir string) (overlayPath string, st Stats, er
 	atomicFields = map[types.Object]bool{}
 	mutableVars := map[*types.Var]bool{}
 	initAssigned := map[*types.Var]bool{}
+	_ = initAssigned
 	for _, p := range pkgs {
 		info := p.TypesInfo
 		for _, f := range p.Syntax {
@@ -620,6 +621,7 @@ func Generate(repoDir, outDir, shimDir string) (overlayPath string, st Stats, er
 	for _, p := range pkgs {
 		st.Packages++
 		var resetLines []string
+		var initNames []string
 		needImports := map[string]string{}
 		for i, f := range p.Syntax {
 			path := p.CompiledGoFiles[i]
@@ -687,6 +689,23 @@ func Generate(repoDir, outDir, shimDir string) (overlayPath string, st Stats, er
 				})
 			}
 			rw.file(f)
+			// init functions become ordinary functions that a generated init calls,
+			// so that VerifReset can run them again after zeroing the package state
+			// (state built by init - registered formats, small tables - has to be
+			// there again at the start of every execution)
+			if p.Module != nil && p.Module.Path == "github.com/mandykoh/prism" {
+				var extra []ast.Decl
+				for _, d := range f.Decls {
+					if fd, ok := d.(*ast.FuncDecl); ok && fd.Recv == nil && fd.Name.Name == "init" && fd.Body != nil {
+						nm := fmt.Sprintf("verifInit%d", len(initNames))
+						initNames = append(initNames, nm)
+						fd.Name = ast.NewIdent(nm)
+						extra = append(extra, &ast.FuncDecl{Name: ast.NewIdent("init"), Type: &ast.FuncType{Params: &ast.FieldList{}},
+							Body: &ast.BlockStmt{List: []ast.Stmt{&ast.ExprStmt{X: &ast.CallExpr{Fun: ast.NewIdent(nm)}}}}})
+					}
+				}
+				f.Decls = append(f.Decls, extra...)
+			}
 			if rw.usedVrt {
 				astutil.AddNamedImport(p.Fset, f, "vrt", vrtPath)
 			}
@@ -717,7 +736,7 @@ func Generate(repoDir, outDir, shimDir string) (overlayPath string, st Stats, er
 			if !ok {
 				continue
 			}
-			if globals[v] || syncVarsUsed[v] || (mutableVars[v] && !initAssigned[v] && instrumentedPkg(p.PkgPath) && !isFuncOrIface(v.Type())) {
+			if globals[v] || syncVarsUsed[v] || (mutableVars[v] && instrumentedPkg(p.PkgPath) && !isFuncOrIface(v.Type())) {
 				initExpr := ""
 				for _, f := range p.Syntax {
 					for _, d := range f.Decls {
@@ -775,6 +794,11 @@ func Generate(repoDir, outDir, shimDir string) (overlayPath string, st Stats, er
 				if globals[v] {
 					st.HookedGlobals = append(st.HookedGlobals, p.PkgPath+"."+name)
 				}
+			}
+		}
+		if len(resetLines) > 0 {
+			for _, nm := range initNames {
+				resetLines = append(resetLines, "\t"+nm+"()")
 			}
 		}
 		if len(resetLines) > 0 && len(p.GoFiles) > 0 && p.Module != nil && p.Module.Path == "github.com/mandykoh/prism" {
